@@ -231,6 +231,9 @@ class OnClose(ProducerContract):
     def variants(self):
         return ['code', 'nocode']
 
+    def site_keys(self, sites):
+        return [0 if src.startswith('events.Closed(') else 1 if src.startswith('events.Closing(') else k for k, src, stmt in sites]
+
     def setup(self, ip, v):
         W = world(ip, session='some')
         install_flag_monitor(ip, W)
@@ -476,6 +479,19 @@ class WsFeed(ProducerContract):
     def variants(self):
         return ['bytes']
 
+    def site_keys(self, sites):
+        """the yields of feed by what they yield (the arms of the dispatch chain may come in any order)"""
+        names = {'events.Rejected(': 0, 'events.Ready(': 1, 'events.Ping(': 3, 'events.Pong(': 4, 'events.Binary(': 5, 'events.Text(': 6}
+        out = []
+        for k, src, stmt in sites:
+            n = next((v for p, v in names.items() if src.startswith(p)), None)
+            if n is None and src.startswith('events.ProtocolError('):
+                n = 7 if src.rstrip(') ').endswith('True') else 8
+            if n is None and src.isidentifier():
+                n = 2
+            out.append(k if n is None else n)
+        return out
+
     def setup(self, ip, v):
         W = world(ip, session='some')
         hs(ip.st)
@@ -686,7 +702,8 @@ class WsFeed(ProducerContract):
             st.ghost['wire_at_pe'] = len(st.ghost.get('wire_log', []))
         if k in (3, 4, 5, 6):
             # which message is being dispatched (for the identical-payload obligation)
-            st.ghost['current_message'] = ip.env.vars.get('message')
+            from pyvc.source import Roles
+            st.ghost['current_message'] = ip.env.vars.get(Roles(WebSocket.feed).for_target('stream.feed('))
         return ProducerContract.at_yield(self, ip, k, v, node)
 
 
